@@ -175,10 +175,25 @@ impl McpManager {
         self.server_map.insert(server.id, server);
     }
 
+    /// 统计当前所有服务(当前值、发布值、历史值)对指定工具各版本的引用次数
+    fn count_tool_refs(&self, tool_key: &ToolKey) -> HashMap<u64, i64> {
+        let mut ref_map = HashMap::new();
+        for mcp_server in self.server_map.values() {
+            Self::calculate_tool_ref(&mut ref_map, mcp_server);
+        }
+        ref_map.remove(tool_key).unwrap_or_default()
+    }
+
     fn update_tool_spec(&mut self, tool_spec_param: ToolSpecParam) -> anyhow::Result<()> {
         let tool_key = tool_spec_param.build_key();
         if let Some(tool_spec) = self.tool_spec_map.get(&tool_key) {
             let mut mul_tool_spec = tool_spec.as_ref().to_owned();
+            // 引用计数不在快照中,增量维护的值在重启/加载快照后会丢失;这里按当前服务数据重新计算,
+            // 保证"旧版本是否仍被引用"的判断在各节点、重启前后一致
+            let refs = self.count_tool_refs(&tool_key);
+            for (version, spec_version) in mul_tool_spec.versions.iter_mut() {
+                spec_version.ref_count = refs.get(version).copied().unwrap_or(0);
+            }
             mul_tool_spec.update_param(tool_spec_param);
             self.tool_spec_map.insert(tool_key, Arc::new(mul_tool_spec));
         } else {
@@ -240,8 +255,10 @@ impl McpManager {
     }
 
     fn remove_tool_spec(&mut self, tool_key: ToolKey) -> anyhow::Result<()> {
-        if let Some(map) = self.tool_spec_version_ref_map.get(&tool_key) {
-            if !map.is_empty() {
+        // 按当前服务数据判断是否被引用(增量索引在计数归零时不会清除,且加载快照后回放日志期间尚未重建)
+        let map = self.count_tool_refs(&tool_key);
+        {
+            if map.values().any(|count| *count > 0) {
                 #[cfg(feature = "debug")]
                 log::warn!(
                     "tool spec is used,{:?},{}",
